@@ -520,18 +520,57 @@ theorem runErr?_some (r : Run K) (e : Err) (h : runErr? r = some e) : r.result =
   | error e' => rw [hr] at h; simp at h; rw [h]
   | ok o => rw [hr] at h; simp at h
 
-/-- if the call's own effects are "kernel, `multiply(out, mul, out=out)`, label" and the nested call
-    is the call itself (the output still carries its old unit), no recursion budget suffices: the
-    run ends in `RecursionError` having multiplied the buffer once per frame -/
+/-- RE-ENTRANT variant (`reenters = true`: `multiply(out, mul, out=out)` on the unyt array, the code
+    before fix db741b8): if the call's own effects are "kernel, post-multiplication, label" and the
+    nested call is the call itself (the output still carries its old unit), no recursion budget
+    suffices: the run ends in `RecursionError` having multiplied the buffer once per frame -/
 theorem inplaceUfunc_diverges (C : Ctx K) (o : OutInfo K) (c : Call K) (u : UnitR K) (u' : UnitV K)
     (h1 : (dispatch C c).effects = [.writeOut 0, .scaleOut, .setOutUnits 0 u'])
     (h2 : o.unit = some u) (h3 : nestedCall C o u c.out = c) (hp : o.promotable = true) :
-    ∀ fuel, (inplaceUfunc C o fuel c).result = .error .RuntimeError
-      ∧ (inplaceUfunc C o fuel c).effects = List.replicate fuel (.kernel "ufunc") := by
+    ∀ fuel, (inplaceUfunc true C o fuel c).result = .error .RuntimeError
+      ∧ (inplaceUfunc true C o fuel c).effects = List.replicate fuel (.kernel "ufunc") := by
   intro fuel
   induction fuel with
   | zero => exact ⟨rfl, rfl⟩
   | succ n ih =>
     simp [inplaceUfunc, h1, convEffects, h2, h3, hp, ih.1, ih.2, List.replicate_succ]
+
+/-- RAW-BUFFER variant (`reenters = false`): the translation of the dispatcher's effects never
+    fails and never recurses -/
+theorem convEffects_raw (o : OutInfo K) (nested : K → IRun K) (mul : K) (es : List (Effect K)) :
+    (convEffects false o nested mul es).2 = none := by
+  induction es with
+  | nil => rfl
+  | cons e r ih =>
+    cases e <;> simp only [convEffects, ih]
+
+/-- … so the verdict is the dispatcher's -/
+theorem inplaceUfunc_raw_result (C : Ctx K) (o : OutInfo K) (fuel : Nat) (c : Call K)
+    (hp : ((prepOut C.T c.ufunc c.out : List (Effect K)).length != 0 && !o.promotable) = false) :
+    (inplaceUfunc false C o (fuel + 1) c).result = (dispatch C c).result.map (fun _ => ()) := by
+  simp only [inplaceUfunc, hp, Bool.false_eq_true, if_false, convEffects_raw]
+  cases (dispatch C c).result <;> rfl
+
+theorem prepOut_cases (T : Tables) (f : String) (out : OutSpec) :
+    (prepOut T f out : List (Effect K)) = [] ∨ (prepOut T f out : List (Effect K)) = [.retypeOut] := by
+  unfold prepOut
+  cases out with
+  | none => left; rfl
+  | many os => left; rfl
+  | one oa =>
+    dsimp only
+    split
+    · left; rfl
+    · split
+      · right; rfl
+      · left; rfl
+
+/-- which target effects the raw-buffer translation produces from a list of retypes -/
+theorem convEffects_raw_retypes (o : OutInfo K) (nested : K → IRun K) (mul : K) (n : Nat) :
+    (convEffects false o nested mul (List.replicate n (Effect.retypeOut : Effect K))).1
+      = (List.replicate n [Eff.retype o.floatDtype, Eff.castCopy o.floatDtype]).flatten := by
+  induction n with
+  | zero => rfl
+  | succ k ih => simp [List.replicate_succ, convEffects, ih]
 
 end Unyt.Effects
